@@ -15,6 +15,9 @@ Families (the `family` field, measured in the evidence):
   edge     malformed / boundary stream: invalid lengths, huge lengths and indices, +-Infinity arguments,
            descriptors mixing accessor and data fields
   lenic    `a.length = v` through one by-name site (warm inline cache)
+  species  (ext) spec-oracle queries: builtins writing into an array handed back by a custom / species constructor
+           (Array.of / Array.from with a constructor, slice / splice / concat / map / filter with @@species) and index
+           stores / reads through `super[i]` whose receiver is not the array, between ordinary mutations
 """
 import struct
 
@@ -55,9 +58,12 @@ def tostring(tok):
 
 
 class Gen:
-    def __init__(self, rng, thorough=False):
+    def __init__(self, rng, thorough=False, ext=False):
         self.r = rng
         self.thorough = thorough
+        self.ext = ext
+        if ext:
+            self.FAMILIES = self.FAMILIES + [("species", 8)]
 
     # ---- values ----
     def vint(self):
@@ -426,6 +432,33 @@ class Gen:
         ("q isFrozen", False, False),
     ]
 
+    def op_ext(self, n):
+        """a spec-oracle query (harness returns "same" or "DIFF ...")"""
+        r = self.r
+        k = r.choice(["ofctor", "fromctor", "speciesSlice", "speciesSplice", "speciesConcat", "speciesMap", "speciesFilter",
+                      "superset", "superset", "superget"])
+        if k == "superset":
+            return "q superset %d %s" % (self.idx(n, 0.3), self.value())
+        if k == "superget":
+            return "q superget %d" % self.idx(n, 0.3)
+        return "q %s %d" % (k, r.randint(0, 1))
+
+    def h_species(self, length):
+        r = self.r
+        elems = self.init("random")
+        n = len(elems)
+        ops = []
+        for _ in range(length):
+            x = r.random()
+            if x < 0.5:
+                ops.append(self.op_ext(n))
+            elif x < 0.6:
+                ops.append(self.op_query(n))
+            else:
+                o, n = self.op_mutate(n, r.choice([(1, 0, 0), (2, 3, 0), (4, 3, 3)]))
+                ops.append(o)
+        return elems, ops
+
     def h_sync(self, length):
         """Only operations after which an array and an equivalent array-like stay equivalent, mixed with the
         differential-only methods."""
@@ -436,6 +469,9 @@ class Gen:
         for _ in range(length):
             x = r.random()
             if x < 0.45:
+                if self.ext and r.random() < 0.15:
+                    ops.append(self.op_ext(n))
+                    continue
                 t = r.choice(self.XQ)
                 ops.append(t[0])
             elif x < 0.55:
